@@ -224,6 +224,23 @@ func (i *interpreter) sprintf(fr *frame, format string, args []value) value {
 				out = append(out, i.fmtArg(fr, arg, 'v')...)
 			}
 		default: // s v w
+			if verb == 's' {
+				// a number or boolean under %s is a bad verb: the real fmt prints %!s(int=8080)
+				x := arg
+				if xi, ok := x.(iface); ok {
+					x = xi.v
+				}
+				switch n := x.(type) {
+				case bool, int, int8, int16, int32, int64, uint, uint8, uint16, uint32, uint64, uintptr, float32, float64:
+					out = append(out, strBytes(fmt.Sprintf("%"+flags+"s", n))...)
+					continue
+				case sym:
+					if n.t.srt != 0 {
+						out = append(out, strBytes(fmt.Sprintf("%"+flags+"s", int(i.concIntVal(n))))...)
+						continue
+					}
+				}
+			}
 			b := i.fmtArg(fr, arg, 'v')
 			if flags != "" && allConcrete(b) {
 				if cs, ok := mkStr(b).(string); ok {
